@@ -62,7 +62,7 @@ theorem blocked_rank {cfg : Cfg} {s : State} (inv : Inv cfg s) {t : Nat} {lk : L
       have hs := inv.sim u
       rw [hcu] at hs
       simp only [Sim, Abs.final, Local.abs, Bool.and_eq_true, List.isEmpty_iff] at hs
-      rw [hs.1.1.1] at hm
+      rw [hs.1.1.1.2] at hm
       simp at hm
   · intro lk' hb'
     obtain ⟨g', r', u', hc', hg', ho', hu'⟩ := hb'
